@@ -17,11 +17,17 @@ TUPLES = [('method-1', 'service-1', 'host-1:8080', None), ('method-1', 'service-
           ('method-1', 'service-2', 'host-1:8080', None), ('method-2', 'service-1', 'host-1:8080', 'client-id')]
 
 
-def fresh(t):
+def fresh(t, assign=False):
   """A Source whose field values are equal to t but are *new string objects*, as they are when the dispatcher builds
-  them at run time ('%s:%d' % (host, port), str(endpoint))."""
+  them at run time ('%s:%d' % (host, port), str(endpoint)).  assign=True: the fields are set on an empty Source after
+  construction (they are public attributes)."""
   from scales.varz import Source
-  return Source(*[None if x is None else (x + '#')[:-1] for x in t])
+  vals = [None if x is None else (x + '#')[:-1] for x in t]
+  if not assign:
+    return Source(*vals)
+  s = Source()
+  s.method, s.service, s.endpoint, s.client_id = vals
+  return s
 AMOUNTS = [0, 1, 2]
 
 _V = None
@@ -44,7 +50,7 @@ def ops_alphabet():
   for kind in ('c', 'r', 'g', 't'):
     for ti in range(len(TUPLES)):
       for a in AMOUNTS:
-        for style in ((0, 1) if kind == 'c' else (0,)):
+        for style in ((0, 1, 2) if kind == 'c' else (0, 2) if kind == 'g' else (0,)):
           ops.append((kind, ti, a, style))
   return ops
 
@@ -65,7 +71,7 @@ def run_sequences(first_ops, length):
       VarzReceiver.VARZ_DATA.clear()
       model = {'c': {}, 'r': {}, 'g': {}, 't': {}}
       for (kind, ti, a, style) in seq:
-        src = fresh(TUPLES[ti])             # fresh object, fresh field strings, every time
+        src = fresh(TUPLES[ti], assign=(style == 2))             # fresh object, fresh field strings, every time
         if style == 1:
           getattr(V(src), kind)(a)          # instance form (bound to a source)
         else:
